@@ -126,6 +126,54 @@ def prefixStates (db : SDB) : Stmt → List (Bytes × List (List Val))
           (t, go (tb.rows.zip sel) (j + 1))
   | _ => []
 
+/-- Every state a crash in the middle of a (valid) statement may leave behind according to
+C03: the state before it plus the effects of a prefix of its row operations, in the order
+the statement applies them (the whole statement and nothing at all included). -/
+def rowPrefixStates (db : SDB) : Stmt → List (Bytes × List (List Val))
+  | .insert t cols rows =>
+    match findTable db t with
+    | none => []
+    | some tb =>
+      let vals := (rows.map fun r => rowOf tb cols (r.map litVal)).filterMap id
+      (List.range (vals.length + 1)).map fun j => (t, tb.rows.map (·.vals) ++ vals.take j)
+  | .update t sets w =>
+    match findTable db t with
+    | none => []
+    | some tb =>
+      match selects tb w with
+      | none => []
+      | some sel =>
+        let assign (vals : List Val) : List Val :=
+          let m : Vals := (sets.map fun p => (nameStr p.1, match p.2 with | .lit l => litVal l | .col _ => Val.null)).reverse ++
+            (tb.cols.map (·.name)).zip vals
+          tb.cols.map fun fd => get m fd.name
+        let nsel := (sel.filter id).length
+        (List.range (nsel + 1)).map fun j =>
+          let rec go (rows : List (SRow × Bool)) (left : Nat) : List (List Val) :=
+            match rows with
+            | [] => []
+            | (r, s) :: rest =>
+              if s && left > 0 then assign r.vals :: go rest (left - 1)
+              else r.vals :: go rest left
+          (t, go (tb.rows.zip sel) j)
+  | .delete t w =>
+    match findTable db t with
+    | none => []
+    | some tb =>
+      match selects tb w with
+      | none => []
+      | some sel =>
+        let nsel := (sel.filter id).length
+        (List.range (nsel + 1)).map fun j =>
+          let rec goDel (rows : List (SRow × Bool)) (left : Nat) : List (List Val) :=
+            match rows with
+            | [] => []
+            | (r, s) :: rest =>
+              if s && left > 0 then goDel rest (left - 1)
+              else r.vals :: goDel rest left
+          (t, goDel (tb.rows.zip sel) j)
+  | _ => []
+
 /-- effect of a statement; `none` = the statement must be refused and change nothing -/
 def specStmt (db : SDB) : Stmt → Option SDB
   | .createTable n cols => specCreate db n cols
